@@ -178,6 +178,8 @@ def same_typed(a, b):
         return False
     if isinstance(a, float):
         return a == b or (math.isnan(a) and math.isnan(b))
+    if isinstance(a, decimal.Decimal):
+        return str(a) == str(b)
     if isinstance(a, dict):
         if len(a) != len(b):
             return False
